@@ -65,7 +65,9 @@ Cases ==
     {[m |-> "flatten", op |-> "flatten", wd |-> 5000, mesh |-> ms, T |-> Motions[t], T2 |-> Motions[(t % 3) + 1], disk |-> FALSE] : ms \in NonDisks, t \in 1..NPose} \cup
     \* the same disks at part sizes of 1e-5 and 1e3 units: acceptance and shape may not depend on the size
     UNION {{[m |-> "flatten", op |-> "flatten", wd |-> 5000, mesh |-> ms, T |-> Motions[1], T2 |-> Motions[2], disk |-> TRUE, sc |-> k] : k \in {-17, 10}} : ms \in Disks} \cup
-    {[m |-> "flatten", op |-> "uv", wd |-> 5000, mesh |-> ms, T |-> Motions[t], disk |-> TRUE] : ms \in {x \in Disks : x.planar}, t \in 1..NPose}
+    {[m |-> "flatten", op |-> "uv", wd |-> 5000, mesh |-> ms, T |-> Motions[t], disk |-> TRUE] : ms \in {x \in Disks : x.planar}, t \in 1..NPose} \cup
+    \* the same maps stored with v pointing down (all uv triangles clockwise)
+    {[m |-> "flatten", op |-> "uv", wd |-> 5000, mesh |-> ms, T |-> Motions[1], disk |-> TRUE, uvflip |-> 1] : ms \in {x \in Disks : x.planar}}
 
 Init == case \in Cases
 Next == UNCHANGED case
